@@ -61,8 +61,8 @@ def extract():
 # cases
 # ----------------------------------------------------------------------------------------------
 def gen_cases(rng, tier):
-    n_sq = 1200 if tier == "quick" else 12000
-    n_gen = 200 if tier == "quick" else 2000
+    n_sq = 1200 if tier == "quick" else 30000
+    n_gen = 200 if tier == "quick" else 3000
     out = []
     g = sp.SGen(rng)
     gflat = sp.SGen(rng, p_subq=0.0, max_depth=0, p_with=0.0)
